@@ -441,10 +441,9 @@ class SecureSession(TCPTransport, _IPSecureTransportLayer):
             SecureSessionStatusCode.STATUS_UNAUTHENTICATED,
         ):
             logger.info("Secure session closed by server: %s.", knxipframe.body.status)
-            if self.transport:
-                # closing transport will call `asyncio.Protocol.connection_lost`
-                # and its callback from SecureTunnel
-                self.transport.close()
+            # the session is gone - don't wait for `asyncio.Protocol.connection_lost`
+            # of the closing transport to tell SecureTunnel
+            self._connection_lost()
 
 
 class SecureGroup(UDPTransport, _IPSecureTransportLayer):
